@@ -114,9 +114,11 @@ fn check(ctx: &mut Ctx, t: &TextD, font: &MonoFont<'_>, rng: &mut Rng) {
     //             drawing s1 then s2 at the returned position equals drawing s1 + s2
     if !t.text.contains('\n') && t.align == 0 {
         let chars: Vec<char> = t.text.chars().collect();
-        if !spaced && chars.len() >= 2 {
+        // (the first part must not end with a CR: what a CR at the very end of a text means is not
+        // fixed by the statement - the library takes it as a line ending)
+        let k = if chars.len() >= 2 { rng.usizer(1, chars.len() - 1) } else { 0 };
+        if !spaced && chars.len() >= 2 && chars[k - 1] != '\r' {
             ctx.eval();
-            let k = rng.usizer(1, chars.len() - 1);
             let (s1, s2): (String, String) = (chars[..k].iter().collect(), chars[k..].iter().collect());
             let mut t1 = t.clone();
             t1.text = s1;
@@ -146,7 +148,9 @@ fn check(ctx: &mut Ctx, t: &TextD, font: &MonoFont<'_>, rng: &mut Rng) {
         let mut union = PixMap::new();
         for (i, line) in lines.iter().enumerate() {
             let mut tl = t.clone();
-            tl.text = line.to_string();
+            // (a line whose content ends with a CR is drawn on its own with one more CR, which Text
+            // takes as the line ending, so that the content stays the same)
+            tl.text = if line.ends_with('\r') { format!("{}\r", line) } else { line.to_string() };
             tl.at = (t.at.0, t.at.1 + i as i32 * lh);
             let (m, _) = draw(&tl, font);
             if let Some((x0, y0, x1, _y1)) = m.bounds() {
@@ -180,10 +184,14 @@ fn check(ctx: &mut Ctx, t: &TextD, font: &MonoFont<'_>, rng: &mut Rng) {
     }
 
     // --- (6) \r\n behaves exactly like \n
-    if t.text.contains('\n') {
+    // (line contents are what remains after splitting at LF and taking one CR off the end of each
+    // piece; a content that itself ends with a CR cannot be written with an LF ending - "x\r" + LF
+    // reads as "x" + CR LF - so such texts have no LF form to compare with)
+    let contents: Vec<&str> = t.text.split('\n').map(|l| l.strip_suffix('\r').unwrap_or(l)).collect();
+    if t.text.contains('\n') && !contents.iter().any(|l| l.ends_with('\r')) {
         ctx.eval();
-        let lf = t.text.replace("\r\n", "\n");
-        let crlf = lf.replace('\n', "\r\n");
+        let lf = contents.join("\n");
+        let crlf = contents.join("\r\n");
         let mut a = t.clone();
         a.text = lf;
         let mut b = t.clone();
